@@ -228,7 +228,7 @@ fn foreign_kinds(auth_magic: u16) -> Vec<(String, WMessage)> {
 }
 
 /// The decoded length a run-length stream announces (saturating; a truncated varint ends the walk).
-fn announced_len(data: &[u8]) -> u64 {
+pub fn announced_len(data: &[u8]) -> u64 {
     let (mut off, mut total) = (0usize, 0u64);
     while off < data.len() {
         let (mut v, mut sh) = (0u64, 0u32);
